@@ -58,6 +58,17 @@ CHECKS["C14"] = dict(
     technique="TLA+ model checking (TLC) + behaviour replay + TLC trace validation",
     design="6/C14")
 
+CHECKS["C15"] = dict(
+    level="model_checking",
+    text="TLC checks the one-regex-element-per-character model of afsp.cc against the documented wildcard relation (RParse/Glob) for "
+         "every wildcard over an alphabet containing all regex metacharacters and every catalogued file name, plus the man page's own "
+         "examples; every wildcard is then run through the real AFSPMatcher and parse_filename + has_name against the same 540 files "
+         "(about 2 million decisions), a sample through dfs info on real discs, and TraceAfsp.tla judges each selected set.",
+    note="Bounded wildcard/name lengths; drives written with leading zeros and malformed drive parts are outside the judged domain; the "
+         "directory letter of type/list/dump may compare case-sensitively or not.",
+    technique="TLA+ model checking (TLC) + behaviour replay + TLC trace validation",
+    design="6/C15")
+
 PENDING_REASON = "check not built yet in this session (work in progress; design in DESIGN.md section 6)"
 
 
